@@ -177,19 +177,6 @@ impl E {
         v.join(" ")
     }
 
-    /// Does the tree contain an allow-listed SPLIT_* call (known finding: it writes its outputs)?
-    fn has_split(&self) -> bool {
-        match self {
-            E::Leaf(_) => false,
-            E::Un(_, e) | E::Paren(e) | E::Index(_, e) => e.has_split(),
-            E::Bin(_, a, b) => a.has_split() || b.has_split(),
-            E::Call(name, args) => {
-                name.to_ascii_uppercase().starts_with("SPLIT_") || args.iter().any(|(_, _, e)| e.has_split())
-            }
-            E::Weird(t, _, args) => t.has_split() || args.iter().any(|e| e.has_split()),
-        }
-    }
-
     /// Does the tree call `name` (compared as the guard does, ASCII case-insensitively)?
     fn calls_name(&self, upper: &str) -> bool {
         match self {
@@ -587,10 +574,6 @@ pub fn run_ex_case(n: u64, rng: &mut Rng, watchdog: Duration, out: &mut Out) -> 
                 // known finding C17-user-function-shadows-allowlisted-name
                 out.line(format!("# known-shadow {outcome}"));
                 out.count(if outcome == "same" { "ex_known_shadow_same" } else { "ex_known_shadow_changed_state" });
-            } else if e.has_split() {
-                // known finding C17-split-outputs-allowlisted: classified here, reported by the check
-                out.line(format!("# known-split {outcome}"));
-                out.count(if outcome == "same" { "ex_known_split_same" } else { "ex_known_split_changed_state" });
             } else {
                 out.line("state");
                 out.line(format!("impl {outcome}"));
